@@ -1,12 +1,18 @@
 //go:build verif
 
-// Package c37 holds the C37 harnesses (process list and KILL). Harness-only
-// package: the tool cannot address the module's root package (sqle), whose
-// ProcessList API is exported.
+// Package c37 holds the C37 harnesses: the process list (sqle.ProcessList in
+// the module's root package) tracks exactly the connected sessions and their
+// running queries, KILL cancels exactly the targeted work, and the
+// Threads_connected / Threads_running status counters agree with the list.
+//
+// Harness-only package; only the exported ProcessList API is used. Sessions, contexts and the status-variable
+// registry are the real ones (sql.NewBaseSessionWithClientServer,
+// sql.NewContext, variables.InitStatusVariables).
 package c37
 
 import (
 	"context"
+	"sync"
 
 	sqle "github.com/dolthub/go-mysql-server"
 	nd "github.com/dolthub/go-mysql-server/internal/zzverifnd"
@@ -14,22 +20,463 @@ import (
 	"github.com/dolthub/go-mysql-server/sql/variables"
 )
 
-// probe 1: real constructors
-func VerifC37ProbeRealCtx() {
-	variables.InitStatusVariables()
-	sess := sql.NewBaseSessionWithClientServer("srv", sql.Client{User: "u", Address: "h"}, 1)
-	ctx := sql.NewContext(context.Background(), sql.WithSession(sess), sql.WithPid(7))
-	pl := sqle.NewProcessList()
-	pl.AddConnection(1, "h")
-	pl.ConnectionReady(sess)
-	qctx, err := pl.BeginQuery(ctx, "select 1")
-	nd.Reach("c37.probe.real")
-	nd.Assert("c37.probe.real.ok", err == nil && qctx != nil)
-	_, v, ok := sql.StatusVariables.GetGlobal("Threads_running")
+// ---- reference model ---------------------------------------------------------------
+
+const (
+	c37Absent     = 0
+	c37Connecting = 1 // AddConnection done, session not ready
+	c37Idle       = 2 // ConnectionReady done
+)
+
+const (
+	c37None  = 0
+	c37Query = 1
+	c37Op    = 2
+)
+
+// c37Work: one context handed out by BeginQuery / BeginOperation (derived by
+// the process list with context.WithCancel from the statement's context).
+type c37Work struct {
+	ctx  *sql.Context
+	want bool // the model's cancel flag
+}
+
+func (wk *c37Work) cancelled() bool { return wk.ctx.Err() != nil }
+
+type c37Conn struct {
+	state   int
+	running int
+	query   string
+	pid     uint64
+	work    *c37Work     // the running query / operation
+	rctx    *sql.Context // what Begin* returned, to be passed to End*
+	orphan  *sql.Context // query context whose connection was removed before EndQuery
+}
+
+type c37Model struct {
+	conn [2]c37Conn
+	all  []*c37Work
+	// input classes with their own assertion ids (the model follows the code and
+	// the flag is asserted last):
+	leakBeginError int // BeginQuery returned an error but had already counted the query as running
+	leakRemoved    int // RemoveConnection of a connection whose query was running: the running count is never taken back
+}
+
+func (m *c37Model) connected() int {
+	n := 0
+	for i := range m.conn {
+		if m.conn[i].state != c37Absent {
+			n++
+		}
+	}
+	return n
+}
+
+func (m *c37Model) runningQueries() int {
+	n := 0
+	for i := range m.conn {
+		if m.conn[i].running == c37Query {
+			n++
+		}
+	}
+	return n
+}
+
+func (m *c37Model) pidInUse(pid uint64) bool {
+	for i := range m.conn {
+		if m.conn[i].running == c37Query && m.conn[i].pid == pid {
+			return true
+		}
+	}
+	return false
+}
+
+// operation kinds
+const (
+	c37AddConnection = iota
+	c37ConnectionReady
+	c37BeginQuery
+	c37BeginOperation
+	c37EndOperation
+	c37Kill
+	c37RemoveConnection
+	c37EndQuery
+	c37Kinds
+)
+
+type c37Step struct {
+	kind, c int
+	pid     uint64
+}
+
+// allowed: the per-connection protocol the server follows (one goroutine per
+// connection: AddConnection, ConnectionReady, then bracketed Begin/End pairs;
+// RemoveConnection at any time; Kill comes from other connections at any
+// time). BeginQuery / BeginOperation are also offered where they must fail.
+func (m *c37Model) allowed(s c37Step) bool {
+	cn := &m.conn[s.c]
+	switch s.kind {
+	case c37AddConnection:
+		return cn.state == c37Absent // connection ids are unique
+	case c37ConnectionReady:
+		return cn.state != c37Absent && cn.running == c37None
+	case c37BeginQuery:
+		return (cn.state == c37Idle && cn.running == c37None) || cn.state == c37Absent
+	case c37EndQuery:
+		return cn.running == c37Query || cn.orphan != nil
+	case c37EndOperation:
+		return cn.running == c37Op
+	}
+	return true // BeginOperation (fails when unregistered or busy), Kill, RemoveConnection: any time
+}
+
+// ---- driver ---------------------------------------------------------------------------
+
+type c37World struct {
+	pl   *sqle.ProcessList
+	sess [2]*sql.BaseSession
+	m    c37Model
+	// the statement contexts passed INTO Begin*: never cancelled by the process list
+	parents []*sql.Context
+}
+
+var c37Users = [2]string{"u1", "u2"}
+var c37Hosts = [2]string{"h1:1", "h2:2"}
+var c37Queries = [2]string{"select 1", "select 2"}
+
+func c37Counter(name string) (uint64, bool) {
+	_, v, ok := sql.StatusVariables.GetGlobal(name)
 	n, isU := v.(uint64)
-	nd.Assert("c37.probe.real.counter", ok && isU && n == 1)
-	pl.Kill(1)
-	nd.Assert("c37.probe.real.killed", context.Cause(qctx) != nil && context.Cause(ctx) == nil)
-	pl.EndQuery(qctx)
-	nd.Assert("c37.probe.real.procs", len(pl.Processes()) == 1)
+	return n, ok && isU
+}
+
+func c37NewWorld() *c37World {
+	if sql.StatusVariables == nil {
+		variables.InitStatusVariables()
+	}
+	sql.StatusVariables.SetGlobal("Threads_connected", uint64(0))
+	sql.StatusVariables.SetGlobal("Threads_running", uint64(0))
+	// slow-query accounting off: with long_query_time > 0 EndQuery evaluates
+	// (time.Duration).Seconds, which the executor does not model
+	if err := sql.SystemVariables.SetGlobal(nil, "long_query_time", float64(0)); err != nil {
+		nd.Assume(false)
+	}
+	w := &c37World{pl: sqle.NewProcessList()}
+	for i := range w.sess {
+		w.sess[i] = sql.NewBaseSessionWithClientServer("srv", sql.Client{User: c37Users[i], Address: c37Hosts[i]}, uint32(i+1))
+	}
+	return w
+}
+
+// newCtx: the context of one statement of connection c, as the server builds it.
+func (w *c37World) newCtx(c int, pid uint64) *sql.Context {
+	ctx := sql.NewContext(context.Background(), sql.WithSession(w.sess[c]), sql.WithPid(pid))
+	w.parents = append(w.parents, ctx)
+	return ctx
+}
+
+// started registers the context a successful Begin* returned.
+func (w *c37World) started(rctx *sql.Context) *c37Work {
+	wk := &c37Work{ctx: rctx}
+	w.m.all = append(w.m.all, wk)
+	return wk
+}
+
+// apply runs one step on the real process list and on the model.
+func (w *c37World) apply(id string, s c37Step) {
+	m := &w.m
+	cn := &m.conn[s.c]
+	connID := uint32(s.c + 1)
+	switch s.kind {
+	case c37AddConnection:
+		w.pl.AddConnection(connID, c37Hosts[s.c])
+		cn.state = c37Connecting
+	case c37ConnectionReady:
+		w.pl.ConnectionReady(w.sess[s.c])
+		cn.state = c37Idle
+	case c37BeginQuery:
+		rctx, err := w.pl.BeginQuery(w.newCtx(s.c, s.pid), c37Queries[s.c])
+		mustFail := cn.state == c37Absent || m.pidInUse(s.pid)
+		nd.Assert(id+".begin-query.fails-iff-unregistered-or-pid-in-use", (err != nil) == mustFail)
+		if err != nil {
+			m.leakBeginError++
+			break
+		}
+		cn.running, cn.query, cn.pid, cn.work, cn.rctx = c37Query, c37Queries[s.c], s.pid, w.started(rctx), rctx
+	case c37EndQuery:
+		if cn.running == c37Query {
+			w.pl.EndQuery(cn.rctx)
+			cn.work.want = true
+			cn.running, cn.query, cn.pid, cn.work, cn.rctx = c37None, "", 0, nil, nil
+		} else {
+			// the deferred EndQuery of a query whose connection is already gone
+			w.pl.EndQuery(cn.orphan)
+			cn.orphan = nil
+		}
+	case c37BeginOperation:
+		rctx, err := w.pl.BeginOperation(w.newCtx(s.c, 0))
+		mustFail := cn.state == c37Absent || cn.running != c37None
+		nd.Assert(id+".begin-operation.fails-iff-unregistered-or-busy", (err != nil) == mustFail)
+		if err != nil {
+			break
+		}
+		cn.running, cn.work, cn.rctx = c37Op, w.started(rctx), rctx
+	case c37EndOperation:
+		w.pl.EndOperation(cn.rctx)
+		cn.work.want = true
+		cn.running, cn.work, cn.rctx = c37None, nil, nil
+	case c37Kill:
+		w.pl.Kill(connID)
+		if cn.state != c37Absent && cn.running != c37None {
+			cn.work.want = true
+		}
+	case c37RemoveConnection:
+		w.pl.RemoveConnection(connID)
+		if cn.state != c37Absent {
+			if cn.running != c37None {
+				cn.work.want = true
+			}
+			orphan := cn.orphan
+			if cn.running == c37Query {
+				m.leakRemoved++
+				orphan = cn.rctx
+			}
+			*cn = c37Conn{orphan: orphan}
+		}
+	}
+}
+
+// check compares everything observable with the model.
+func (w *c37World) check(id string) {
+	m := &w.m
+	// the process list shows exactly the connected sessions and their queries
+	procs := w.pl.Processes()
+	nd.Assert(id+".processes.count", len(procs) == m.connected())
+	var seen [2]bool
+	ok := true
+	for _, p := range procs {
+		if p.Connection != 1 && p.Connection != 2 {
+			ok = false
+			continue
+		}
+		c := int(p.Connection) - 1
+		cn := &m.conn[c]
+		ok = ok && !seen[c] && cn.state != c37Absent
+		seen[c] = true
+		switch {
+		case cn.state == c37Connecting:
+			ok = ok && p.Command == sql.ProcessCommandConnect && p.User == "unauthenticated user" && p.Host == c37Hosts[c] && p.Database == ""
+		case cn.running == c37Query:
+			ok = ok && p.Command == sql.ProcessCommandQuery
+		default:
+			ok = ok && p.Command == sql.ProcessCommandSleep
+		}
+		if cn.state == c37Idle {
+			ok = ok && p.User == c37Users[c] && p.Host == c37Hosts[c]
+		}
+		ok = ok && p.Query == cn.query && p.QueryPid == cn.pid
+	}
+	nd.Assert(id+".processes.match-model", ok)
+	// KILL / End* / disconnect cancel exactly the targeted contexts
+	flags := true
+	for _, wk := range m.all {
+		flags = flags && wk.cancelled() == wk.want
+	}
+	for _, p := range w.parents {
+		flags = flags && p.Err() == nil
+	}
+	nd.Assert(id+".cancel-flags.exactly-the-targeted-work", flags)
+	// status counters
+	tc, ok1 := c37Counter("Threads_connected")
+	tr, ok2 := c37Counter("Threads_running")
+	nd.Assert(id+".threads-connected", ok1 && tc == uint64(m.connected()))
+	nd.Assert(id+".threads-running", ok2 && tr == uint64(m.runningQueries()+m.leakBeginError+m.leakRemoved))
+}
+
+// c37Run: every protocol-conforming history of n steps over the given kinds.
+func c37Run(id string, n, longest int) {
+	// initial state of the two connections: absent, connecting or idle
+	init := [2]int{nd.Pick("init0", 3), nd.Pick("init1", 3)}
+	// the longest histories only from the starts in which the most can happen:
+	// connection 1 idle, connection 2 idle or absent
+	rich := init[0] == c37Idle && init[1] != c37Connecting
+	if n == longest && !rich {
+		nd.Assume(false)
+	}
+	// draw the history and validate it on a scratch model first (cheap), so that
+	// rejected histories do not pay for the real set-up
+	steps := make([]c37Step, n)
+	var scratch c37Model
+	for c, st := range init {
+		scratch.conn[c].state = st
+	}
+	for k := range steps {
+		tag := string(rune('0' + k))
+		s := c37Step{kind: nd.Pick("kind"+tag, c37Kinds), c: nd.Pick("conn"+tag, 2)}
+		if s.kind == c37BeginQuery {
+			s.pid = uint64(7 + nd.Pick("pid"+tag, 2))
+		}
+		if !scratch.allowed(s) {
+			nd.Assume(false)
+		}
+		scratch.simulate(s)
+		steps[k] = s
+	}
+	w := c37NewWorld()
+	for c, st := range init {
+		if st >= c37Connecting {
+			w.apply(id, c37Step{kind: c37AddConnection, c: c})
+		}
+		if st == c37Idle {
+			w.apply(id, c37Step{kind: c37ConnectionReady, c: c})
+		}
+	}
+	w.check(id)
+	for _, s := range steps {
+		w.apply(id, s)
+		w.check(id)
+	}
+	nd.Reach(id)
+	// a fresh query on every connection that can take one starts un-cancelled,
+	// whatever was killed before
+	for c := range w.m.conn {
+		cn := &w.m.conn[c]
+		if cn.state == c37Idle && cn.running == c37None {
+			w.apply(id, c37Step{kind: c37BeginQuery, c: c, pid: 9})
+			nd.Assert(id+".earlier-cancellation-does-not-reach-a-new-query", cn.running == c37Query && !cn.work.cancelled())
+			w.check(id)
+			wk := cn.work
+			w.apply(id, c37Step{kind: c37Kill, c: c})
+			nd.Assert(id+".kill-reaches-the-new-query", wk.cancelled())
+			w.check(id)
+			break
+		}
+	}
+	nd.Assert("c37.begin-query-error.threads-running-unchanged", w.m.leakBeginError == 0)
+	nd.Assert("c37.remove-connection-with-running-query.threads-running-taken-back", w.m.leakRemoved == 0)
+}
+
+// simulate: the model transition alone (used to validate a drawn history).
+func (m *c37Model) simulate(s c37Step) {
+	cn := &m.conn[s.c]
+	switch s.kind {
+	case c37AddConnection:
+		cn.state = c37Connecting
+	case c37ConnectionReady:
+		cn.state = c37Idle
+	case c37BeginQuery:
+		if cn.state != c37Absent && !m.pidInUse(s.pid) {
+			cn.running, cn.pid = c37Query, s.pid
+		}
+	case c37EndQuery:
+		if cn.running == c37Query {
+			cn.running, cn.pid = c37None, 0
+		} else {
+			cn.orphan = nil
+		}
+	case c37BeginOperation:
+		if cn.state != c37Absent && cn.running == c37None {
+			cn.running = c37Op
+		}
+	case c37EndOperation:
+		cn.running = c37None
+	case c37RemoveConnection:
+		if cn.state != c37Absent {
+			orphan := cn.orphan
+			if cn.running == c37Query {
+				orphan = &sql.Context{}
+			}
+			*cn = c37Conn{orphan: orphan}
+		}
+	}
+}
+
+// VerifC37Sequential: every protocol-conforming history by two connections
+// from {AddConnection, ConnectionReady, BeginQuery, EndQuery, BeginOperation,
+// EndOperation, Kill, RemoveConnection}: 1..2 (thorough 3) operations from
+// every initial state (each connection absent, connecting or idle), 3
+// (thorough 4) operations from the states (idle, idle) and (idle, absent);
+// everything observable is compared with the model after every step.
+func VerifC37Sequential() {
+	longest := nd.Bound(3, 4)
+	c37Run("c37.seq", nd.IntRange("n", 1, longest), longest)
+}
+
+// VerifC37Concurrent: the lock discipline. Connection 1 is idle, connection 2
+// idle; thread A runs BeginQuery on connection 1 while thread B runs one of
+//
+//	0 Processes()             the snapshot shows connection 1 either before or
+//	                          after the BeginQuery, never a mixture
+//	1 Kill(1)                 afterwards the query is registered and running;
+//	                          it is cancelled or not (both orders are legal)
+//	2 BeginQuery on conn 2    with the SAME pid: exactly one of the two succeeds
+//
+// under every interleaving at mutex / atomic granularity.
+func VerifC37Concurrent() {
+	other := nd.Pick("other", 3)
+	w := c37NewWorld()
+	for c := 0; c < 2; c++ {
+		w.apply("c37.conc", c37Step{kind: c37AddConnection, c: c})
+		w.apply("c37.conc", c37Step{kind: c37ConnectionReady, c: c})
+	}
+	ctxA := w.newCtx(0, 7)
+	ctxB := w.newCtx(1, 7)
+	var ra, rb *sql.Context
+	var ea, eb error
+	var snap []sql.Process
+	var wg sync.WaitGroup
+	wg.Add(2)
+	go func() {
+		defer wg.Done()
+		ra, ea = w.pl.BeginQuery(ctxA, c37Queries[0])
+	}()
+	go func() {
+		defer wg.Done()
+		switch other {
+		case 0:
+			snap = w.pl.Processes()
+		case 1:
+			w.pl.Kill(1)
+		default:
+			rb, eb = w.pl.BeginQuery(ctxB, c37Queries[1])
+		}
+	}()
+	wg.Wait()
+	nd.Reach("c37.conc")
+	find := func(ps []sql.Process, id uint32) (sql.Process, bool) {
+		for _, p := range ps {
+			if p.Connection == id {
+				return p, true
+			}
+		}
+		return sql.Process{}, false
+	}
+	before := func(p sql.Process) bool {
+		return p.Command == sql.ProcessCommandSleep && p.Query == "" && p.QueryPid == 0
+	}
+	after := func(p sql.Process, c int) bool {
+		return p.Command == sql.ProcessCommandQuery && p.Query == c37Queries[c] && p.QueryPid == 7
+	}
+	final := w.pl.Processes()
+	p1, ok1 := find(final, 1)
+	p2, ok2 := find(final, 2)
+	nd.Assert("c37.conc.both-connections-listed", len(final) == 2 && ok1 && ok2)
+	tr, _ := c37Counter("Threads_running")
+	switch other {
+	case 0:
+		s1, ok := find(snap, 1)
+		nd.Assert("c37.conc.snapshot.atomic", len(snap) == 2 && ok && (before(s1) || after(s1, 0)))
+		nd.Assert("c37.conc.snapshot.final", ea == nil && after(p1, 0) && before(p2) && tr == 1)
+	case 1:
+		nd.Assert("c37.conc.kill.query-registered", ea == nil && after(p1, 0) && before(p2) && tr == 1)
+		nd.Assert("c37.conc.kill.statement-context-untouched", ctxA.Err() == nil)
+	default:
+		// one pid cannot be registered twice
+		nd.Assert("c37.conc.same-pid.exactly-one-succeeds", (ea == nil) != (eb == nil))
+		if ea == nil {
+			nd.Assert("c37.conc.same-pid.winner-registered", after(p1, 0) && before(p2) && ra.Err() == nil)
+		} else {
+			nd.Assert("c37.conc.same-pid.winner-registered", after(p2, 1) && before(p1) && rb.Err() == nil)
+		}
+	}
 }
